@@ -317,6 +317,7 @@ Not decided: that the (min, max) handed to the selector is the true hull of the 
     named_first(m, ctx, "C06.named");
     unpack(m, ctx, "C06.unpack");
     crate::rules::c04::outer_marker(m, ctx, "C06.ext");
+    crate::rules::c04::contained_marker(m, ctx, "C06.ext");
     signed_flag(m, ctx, "C06.signed");
     crate::rules::c07::named_lookup(m, ctx, "C06.named");
     agree(m, ctx, "C06.agree");
